@@ -29,11 +29,15 @@ ID = 'C13'
 LEVEL = 'exploration'
 RULE = ('cases = (backend, <= 8 message specs, expunge-hidden flag, a search '
         'program as a tree of raw ints). Non-trivial = nesting depth >= 2, '
-        'or a set containing "*", or a date key whose argument equals the '
+        'or a set containing "*", or a string key whose argument is a proper '
+        'substring / non-matching extension, or NOT NOT, or a date in a '
+        'non-UTC zone, or a date key whose argument equals the '
         'day of some message (boundary), or a view with a hidden expunged '
         'message; distinct by case hash.')
-ASSUMPTIONS = ['string arguments are whole vocabulary words, so every '
-               'RFC-conforming notion of "contains" agrees',
+ASSUMPTIONS = ['string arguments are vocabulary words, their substrings and '
+               'non-matching extensions in either letter case; messages are '
+               'plain 7-bit text without encoded words or folding, so '
+               '"contains" is unambiguous',
                'TZ=UTC; "disregarding time and timezone" is taken as "the '
                'day as written": Date: headers (both backends) and APPEND '
                'date-times (dict; maildir stores a timestamp, so +0000 '
@@ -138,6 +142,21 @@ def _leaf(a: int, b: int, c: int, ctx: Ctx) -> tuple[str, Any]:
     """(wire text, predicate(position, message) -> bool)"""
     key = KEYS[a % len(KEYS)]
     word = VOCAB[b % 12]
+    # "contains": any substring, any letter case; also a string that is no
+    # substring of anything
+    variant = (c // 3) % 5
+    if variant == 1:
+        word = word[1:4]
+    elif variant == 2:
+        word = word[:3]
+    elif variant == 3:
+        word = word + 'zz'
+    elif variant == 4:
+        word = word[-2:] + '@ex'      # spans the end of a local part
+
+    def mark() -> None:
+        if variant:
+            ctx.labels.add('substring-argument')
     flagmap = {'ANSWERED': '\\Answered', 'DELETED': '\\Deleted',
                'DRAFT': '\\Draft', 'FLAGGED': '\\Flagged', 'SEEN': '\\Seen'}
     if key == 'ALL':
@@ -157,11 +176,13 @@ def _leaf(a: int, b: int, c: int, ctx: Ctx) -> tuple[str, Any]:
         want = key == 'KEYWORD'
         return f'{key} {kw}', lambda p, m: (kw in m['kw']) == want
     if key in ('BCC', 'CC', 'FROM', 'TO', 'SUBJECT'):
+        mark()
         h = key.capitalize()
         spell = [word, f'"{word}"', word.upper()][c % 3]
         return f'{key} {spell}', lambda p, m: word in m['hdrs'].get(
             h, '').lower()
     if key == 'HEADER':
+        mark()
         h = ['X-Custom', 'Subject', 'x-custom', 'Cc', 'X-Missing'][c % 5]
         real = {'x-custom': 'X-Custom'}.get(h, h)
         return f'HEADER {h} {word}', lambda p, m: real in m['hdrs'] and \
@@ -170,8 +191,10 @@ def _leaf(a: int, b: int, c: int, ctx: Ctx) -> tuple[str, Any]:
         h = ['X-Custom', 'Bcc', 'Cc', 'X-Missing'][c % 4]
         return f'HEADER {h} ""', lambda p, m: h in m['hdrs']
     if key == 'BODY':
+        mark()
         return f'BODY {word}', lambda p, m: word in m['body'].lower()
     if key == 'TEXT':
+        mark()
         return f'TEXT {word}', lambda p, m: word in m['raw'].decode().lower()
     if key in ('LARGER', 'SMALLER'):
         sizes = sorted({m['size'] for m in ctx.view}) or [100]
